@@ -17,6 +17,11 @@ A2. label-order lattice — the Cartesian basis for every preset as given and re
 B. alias lattice    — every alias x every entry point that takes a user coefficient dictionary x
    d in {+-50, +-123}: the call with {alias: d} must give the same observable result as the call with
    the canonical symbol ({"defocus": d} == {"C10": -d}).
+D. call histories   — every single call, ordered pair (thorough: triple) of calls of fit_aberrations_from_shifts and of
+   the surface / basis / gradient / conversion / merge functions, from alphabets built to collide on coarse keys (same grid,
+   sampling and mask pixel count with different masks; same mask, other coefficients; other wavelength / rotation; same
+   shapes, other values), each history on freshly re-imported modules, the LAST call judged by the usual oracle: a result
+   must not depend on earlier calls. Conversions and merge must also leave their argument dictionaries/tensors bit-identical.
 C. fit lattice      — (C10, C12, phi12, rotation) grid in the identifiable domain x 3 masks x 2 detector
    shapes: shifts predicted with the public gradient functions on the rotated detector grid, fed to
    fit_aberrations_from_shifts, return the generating values.
@@ -32,6 +37,7 @@ import contextlib
 import inspect
 import io
 import itertools
+import json
 import math
 import warnings
 
@@ -51,7 +57,8 @@ CLAIM = (
     "the autograd derivative of the library's own surface and an independent per-term closed form. Every alias at every entry "
     "point that accepts a user coefficient dictionary gives the same observable result as the canonical symbol "
     "('defocus': d == 'C10': -d). Shifts predicted by the public gradient functions and fed to fit_aberrations_from_shifts "
-    "return the generating defocus, astigmatism and rotation on the whole identifiable grid. Exploration is the right level: "
+    "return the generating defocus, astigmatism and rotation on the whole identifiable grid, also after any earlier call with a "
+    "different mask of equal pixel count, other coefficients, wavelength or rotation (call histories on fresh modules). Exploration is the right level: "
     "the property is an identity between closed-form series and a finite set of entry points, decided by a complete lattice."
 )
 NOTE = (
@@ -64,7 +71,9 @@ RULE = (
     "Full Cartesian lattices: (A) every single term, unordered pair, same-term merge pair and full 25-symbol set x value x "
     "angle x wavelength alphabets, and the label ORDER of the Cartesian basis: every preset as given and reversed, every ordered "
     "pair of distinct labels, 7 permutations of the 25 labels, 5 least-squares-fit basis forms (non-trivial: the list is not "
-    "ascending in radial order); (B) entry point x alias x value; (C) detector shape x mask x C10 x C12 x phi12 x rotation "
+    "ascending in radial order), and call histories: every single call, ordered pair (thorough: triple) over 39 fit calls and "
+    "37 calls of the other functions, modules re-imported per history, last call judged (non-trivial: an earlier call differs "
+    "from the last); (B) entry point x alias x value; (C) detector shape x mask x C10 x C12 x phi12 x rotation "
     "inside |C12|<|C10|, |rotation|<pi/2. A point is non-trivial when the surface is not identically zero (A), when the "
     "canonical call differs observably from the call without the coefficient (B), or always (C); distinct = distinct "
     "coefficient set / entry-alias-value / fit point."
@@ -231,6 +240,25 @@ def rel(a, b, scale):
     return d / scale if scale > 0 else d
 
 
+def _snap(d):
+    """bitwise snapshot of a coefficient dictionary (keys in order, tensor bytes / float values)."""
+    return [(k, v.detach().clone() if isinstance(v, torch.Tensor) else v) for k, v in d.items()]
+
+
+def _unchanged(d, snap):
+    """'' when the dictionary is bit-identical to its snapshot, else a description of the first difference."""
+    if [k for k in d.keys()] != [k for k, _ in snap]:
+        return f"keys {list(d.keys())} (were {[k for k, _ in snap]})"
+    for k, v0 in snap:
+        v = d[k]
+        if isinstance(v0, torch.Tensor):
+            if not isinstance(v, torch.Tensor) or v.dtype != v0.dtype or v.shape != v0.shape or not torch.equal(v, v0):
+                return f"{k}: {float(v0) if v0.numel() == 1 else v0.tolist()} -> {float(v) if isinstance(v, torch.Tensor) and v.numel() == 1 else v}"
+        elif v != v0 or type(v) is not type(v0):
+            return f"{k}: {v0!r} -> {v!r}"
+    return ""
+
+
 def surface_relations(cs, lam):
     """All relations for one coefficient set. Returns (list of (relation, relative error, detail), chi) ."""
     from quantem.diffractive_imaging import complex_probe as cp
@@ -253,7 +281,10 @@ def surface_relations(cs, lam):
     out.append(("surface_same_for_float_and_tensor_coefficients", rel(chi_t, chi_np, sc), ""))
 
     # Cartesian expansion over all labels produced by the library's own conversion
+    snap_cot = _snap(cot)
     cart = cp.polar_to_cartesian_aberrations(cot)
+    ch = _unchanged(cot, snap_cot)
+    out.append(("conversion_leaves_its_input_unmodified", float("inf") if ch else 0.0, f"polar_to_cartesian_aberrations changed its argument: {ch}" if ch else ""))
     labels = list(cart.keys())
     if sorted(labels) != sorted(MY_CART):
         out.append(("conversion_produces_the_25_labels", float("inf"), f"labels {sorted(labels)}"))
@@ -287,7 +318,10 @@ def surface_relations(cs, lam):
         out.append((f"preset_expansion_equals_polar_surface", rel(chi_p, chi_s, term_scale(sub, lam) or sc), f"preset {pname}"))
 
     # polar -> Cartesian -> polar
+    snap_cart = _snap(cart)
     back = cp.cartesian_to_polar_aberrations(cart)
+    ch = _unchanged(cart, snap_cart)
+    out.append(("conversion_leaves_its_input_unmodified", float("inf") if ch else 0.0, f"cartesian_to_polar_aberrations changed its argument: {ch}" if ch else ""))
     chi3 = _np(cp.aberration_surface(A, P, lam, back))
     out.append(("polar_cartesian_polar_roundtrip_reproduces_surface", rel(chi3, chi_np, sc), ""))
     if sorted(back.keys()) != sorted(MY_POLAR):
@@ -344,8 +378,12 @@ def merge_relations(cs_init, cs_delta, lam):
     P = _t(P2)
     init = polar_tensors(cs_init)
     delta = {k: _t(v) for k, v in ref_cart_coefs(cs_delta).items()}
+    snap_i, snap_d = _snap(init), _snap(delta)
     merged = cp.merge_aberration_coefficients(init, delta)
+    ch_i, ch_d = _unchanged(init, snap_i), _unchanged(delta, snap_d)
+    merged2 = cp.merge_aberration_coefficients(init, delta)  # a second call with the same objects must give the same result
     chi_m = _np(cp.aberration_surface(A, P, lam, merged))
+    chi_m2 = _np(cp.aberration_surface(A, P, lam, merged2))
     chi_i = _np(cp.aberration_surface(A, P, lam, polar_floats(cs_init)))
     labels = list(delta.keys())
     if labels:
@@ -354,7 +392,9 @@ def merge_relations(cs_init, cs_delta, lam):
     else:
         chi_d = np.zeros_like(A2)
     sc = (term_scale(cs_init, lam) + term_scale(cs_delta, lam)) or 1.0
-    out = [("merge_adds_library_surfaces", rel(chi_m, chi_i + chi_d, sc), "")]
+    out = [("merge_leaves_its_inputs_unmodified", float("inf") if (ch_i or ch_d) else 0.0, (f"initial polar coefficients changed: {ch_i}; " if ch_i else "") + (f"Cartesian deltas changed: {ch_d}" if ch_d else ""))]
+    out.append(("merge_repeatable_with_the_same_arguments", rel(chi_m2, chi_m, sc), ""))
+    out.append(("merge_adds_library_surfaces", rel(chi_m, chi_i + chi_d, sc), ""))
     out.append(("merge_adds_reference_surfaces", rel(chi_m, ref_surface(cs_init, A2, P2, lam) + ref_surface(cs_delta, A2, P2, lam), sc), ""))
     return out, chi_m, sc
 
@@ -1152,6 +1192,233 @@ def eval_private_shifts(item, seam=True):
     return t
 
 
+# ----------------------------------------------------------------------------- part D: call histories
+# "A result must not depend on earlier calls": every history (ordered pair, thorough: triple) of calls from an alphabet
+# designed to COLLIDE on coarse keys (same grid/sampling/device with different masks of equal pixel count; same mask,
+# different coefficients; same everything, different wavelength / rotation; same shapes, different values) starts from
+# freshly re-imported modules; the LAST call of the history is judged by the usual oracle.
+HIST_MODULES = ["quantem.diffractive_imaging.complex_probe", "quantem.diffractive_imaging.direct_ptycho_utils"]
+HIST_GEOM = {  # name -> (gpts, sampling in A); masks are defined in pixel frequencies, so they do not move with the wavelength
+    "g88": ((8, 8), (0.65, 0.65)),
+    "g810": ((8, 10), (0.65, 0.64)),
+}
+HIST_COEFS = [{"C10": -150.0, "C12": 20.0, "phi12": 0.4}, {"C10": 30.0, "C12": 10.0, "phi12": -1.2}]
+HIST_ROT_LAM = [(0.2, 0), (-0.8, 0), (0.2, 1)]  # (rotation, index into the wavelength alphabet)
+HIST_MASKS = {"g88": ["disc", "disc_shift", "ellipse", "ellipse_T", "half_x", "half_y"], "g810": ["disc", "disc_shift", "half_x"]}
+
+
+def _reload_modules():
+    import importlib
+    import sys
+
+    for name in HIST_MODULES:
+        mod = sys.modules.get(name) or importlib.import_module(name)
+        importlib.reload(mod)
+
+
+def hist_mask(geom, name):
+    gpts = HIST_GEOM[geom][0]
+    kx = np.fft.fftfreq(gpts[0], 1 / gpts[0])[:, None] + np.zeros(gpts)
+    ky = np.fft.fftfreq(gpts[1], 1 / gpts[1])[None, :] + np.zeros(gpts)
+    disc = kx**2 + ky**2 <= 6.25
+    if name == "disc":
+        m = disc
+    elif name == "disc_shift":
+        m = np.roll(disc, 1, axis=0 if geom == "g88" else 1)
+    elif name == "ellipse":
+        m = (kx / 3.2) ** 2 + (ky / 1.6) ** 2 <= 1.0
+    elif name == "ellipse_T":
+        m = ((kx / 3.2) ** 2 + (ky / 1.6) ** 2 <= 1.0).T
+    elif name == "half_x":
+        m = disc & (kx >= 0)
+    elif name == "half_y":
+        m = disc & (ky >= 0)
+    else:
+        raise ValueError(name)
+    return torch.tensor(np.ascontiguousarray(m))
+
+
+def hist_fit_calls():
+    calls = []
+    for mk in HIST_MASKS["g88"]:
+        for ci in range(len(HIST_COEFS)):
+            for rot, li in HIST_ROT_LAM:
+                calls.append(["fit", "g88", mk, ci, rot, li])
+    for mk in HIST_MASKS["g810"]:
+        calls.append(["fit", "g810", mk, 0, 0.2, 0])
+    return calls
+
+
+HIST_SETS = [
+    [[2, 3, 1234.5, 0.37]],
+    [[1, 0, -150.0, None], [1, 2, 20.0, 0.4], [3, 0, 2.0e5, None], [5, 6, 1.0e9, -1.1]],
+]
+HIST_LABELS = [["C10", "C12_a", "C12_b"], ["C30", "C32_b", "C32_a"], ["C12_b", "C10", "C12_a"]]
+HIST_KINDS = ["surface", "basis", "polar_grad", "cart_grad", "p2c", "c2p", "merge"]
+
+
+def hist_math_calls():
+    # [kind, set index (basis: label-list index), grid index, wavelength index]; the two grids have the same shape
+    calls = []
+    for kind in HIST_KINDS:
+        nsets = len(HIST_LABELS) if kind == "basis" else len(HIST_SETS)
+        for si in range(nsets):
+            for gi, li in ((0, 0), (1, 0), (0, 1)):
+                if kind in ("p2c", "c2p") and (gi, li) != (0, 0):
+                    continue  # conversions take no grid and no wavelength
+                calls.append([kind, si, gi, li])
+    return calls
+
+
+def _hist_grid(gi):
+    return (A2, P2) if gi == 0 else (0.5 * A2 + 0.001, P2[:, ::-1] * 0.9 + 0.05)
+
+
+def do_call(call, check=True):
+    """Execute one call on the real functions; with check=True return (relative error / tolerance, detail)."""
+    from quantem.diffractive_imaging import complex_probe as cp
+
+    kind = call[0]
+    lams = _lams()
+    if kind == "fit":
+        from quantem.diffractive_imaging.direct_ptycho_utils import fit_aberrations_from_shifts
+
+        _, geom, mk, ci, rot, li = call
+        gpts, sampling = HIST_GEOM[geom]
+        lam = lams[li]
+        mask = hist_mask(geom, mk)
+        co = HIST_COEFS[ci]
+        sh = predicted_shifts(gpts, sampling, lam, mask, rot, co)
+        fit = fit_aberrations_from_shifts(sh, mask, lam, gpts, sampling)
+        if not check:
+            return None
+        dphi = ((fit["phi12"] - co["phi12"] + math.pi / 2) % math.pi) - math.pi / 2
+        errs = [abs(fit["C10"] - co["C10"]) / abs(co["C10"]) / TOL_FIT, abs(fit["C12"] - co["C12"]) / abs(co["C10"]) / TOL_FIT, abs(dphi) / TOL_FIT, abs(fit["rotation_angle"] - rot) / TOL_ROT]
+        return max(errs), f"generated {co} rotation {rot}, fitted {fit}"
+    _, si, gi, li = call
+    lam = lams[li]
+    Ag, Pg = _hist_grid(gi)
+    A, P = _t(Ag), _t(Pg)
+    amax = float(Ag.max())
+    if kind == "basis":
+        labels = HIST_LABELS[si]
+        B = _np(cp.aberration_surface_cartesian_basis(A, P, lam, list(labels)))
+        if not check:
+            return None
+        w = 0.0
+        for i, l in enumerate(labels):
+            n, m = int(l[1]), int(l[2])
+            knd = l[4:] if "_" in l else ""
+            ang = np.ones_like(Ag) if knd == "" else (np.cos(m * Pg) if knd == "a" else np.sin(m * Pg))
+            w = max(w, rel(B[..., i], 2 * np.pi / lam * Ag ** (n + 1) / (n + 1) * ang, 2 * np.pi / lam * amax ** (n + 1) / (n + 1)))
+        return w / TOL64, f"basis {labels}"
+    cs = HIST_SETS[si]
+    sc = sum(abs(c[2]) * amax ** (c[0] + 1) / (c[0] + 1) for c in cs) * 2 * np.pi / lam
+    sg = sum(abs(c[2]) * amax ** c[0] for c in cs) * 2 * np.pi
+    if kind == "surface":
+        got = _np(cp.aberration_surface(A, P, lam, polar_floats(cs)))
+        return (rel(got, ref_surface(cs, Ag, Pg, lam), sc) / TOL64, "surface") if check else None
+    if kind == "polar_grad":
+        dk, dp = cp.aberration_surface_polar_gradients(A, P, polar_floats(cs))
+        if not check:
+            return None
+        rk, rp = ref_polar_grad(cs, Ag, Pg)
+        return max(rel(_np(dk), rk, sg), rel(_np(dp), rp, sg)) / TOL64, "polar gradients"
+    if kind == "cart_grad":
+        dx, dy = cp.aberration_surface_cartesian_gradients(A, P, polar_floats(cs))
+        if not check:
+            return None
+        rx, ry = ref_cart_grad(cs, Ag, Pg)
+        return max(rel(_np(dx), rx, sg), rel(_np(dy), ry, sg)) / TOL64, "Cartesian gradients"
+    cmax = max(abs(c[2]) for c in cs)
+    if kind == "p2c":
+        cart = cp.polar_to_cartesian_aberrations(polar_tensors(cs))
+        if not check:
+            return None
+        mine = ref_cart_coefs(cs)
+        return max(abs(float(cart[l]) - mine.get(l, 0.0)) / cmax for l in cart) / TOL64, "polar -> Cartesian"
+    if kind == "c2p":
+        back = cp.cartesian_to_polar_aberrations({k: _t(v) for k, v in ref_cart_coefs(cs).items()})
+        if not check:
+            return None
+        got = _np(cp.aberration_surface(_t(A2), _t(P2), lam, back))
+        return rel(got, ref_surface(cs, A2, P2, lam), term_scale(cs, lam)) / TOL64, "Cartesian -> polar"
+    if kind == "merge":
+        other = HIST_SETS[(si + 1) % len(HIST_SETS)]
+        merged = cp.merge_aberration_coefficients(polar_tensors(cs), {k: _t(v) for k, v in ref_cart_coefs(other).items()})
+        if not check:
+            return None
+        got = _np(cp.aberration_surface(A, P, lam, merged))
+        sc2 = sc + sum(abs(c[2]) * amax ** (c[0] + 1) / (c[0] + 1) for c in other) * 2 * np.pi / lam
+        return rel(got, ref_surface(cs, Ag, Pg, lam) + ref_surface(other, Ag, Pg, lam), sc2) / TOL64, "merge"
+    raise ValueError(call)
+
+
+def _coarse_collision(a, b):
+    """two fit calls that agree on grid, sampling and mask pixel count but use different masks"""
+    return a[0] == "fit" and b[0] == "fit" and a[1] == b[1] and a[2] != b[2] and int(hist_mask(a[1], a[2]).sum()) == int(hist_mask(b[1], b[2]).sum())
+
+
+def run_history(hist, verbose=False):
+    """Fresh modules, all calls in order, the last one judged. Returns (ratio to tolerance, detail)."""
+    _reload_modules()
+    for c in hist[:-1]:
+        do_call(c, check=False)
+    r = do_call(hist[-1], check=True)
+    if verbose:
+        print(f"    history {hist[:-1]} -> last call {hist[-1]}: deviation / tolerance = {r[0]:.3e}  ({r[1]})")
+    return r
+
+
+def eval_history(item, depth=2, family="fit"):
+    """item = first call; all histories of the given depth that start with it (depth 3: middle call from every 3rd member)."""
+    t = Tally()
+    calls = hist_fit_calls() if family == "fit" else hist_math_calls()
+    first = list(item)
+    alone = {}
+    tails = [[]] + [[c] for c in calls]
+    if depth >= 3:
+        tails += [[m, c] for m in calls[::3] for c in calls]
+    try:
+        for tail in tails:
+            hist = [first] + tail
+            case = {"part": "history", "history": hist}
+            try:
+                ratio, detail = run_history(hist)
+            except Exception as e:
+                t.case(key=case, nontrivial=True, outcome="raised")
+                t.fail({"part": "history", "relation": "history_runs", "last_call": hist[-1][0]}, case, f"history {hist}: raised {type(e).__name__}: {e}")
+                continue
+            collide = any(_coarse_collision(c, hist[-1]) for c in hist[:-1])
+            t.case(key=case, nontrivial=len(hist) > 1 and any(c != hist[-1] for c in hist[:-1]), outcome=None)
+            t.extra["histories"] += 1
+            t.extra["histories_colliding_on_coarse_key"] += int(collide)
+            if not (ratio <= 1.0):
+                if len(hist) == 1:
+                    cls = {"part": "history", "relation": "call_alone_matches_oracle", "last_call": hist[-1][0]}
+                    msg = f"the single call {hist[-1]} in a fresh module deviates from its oracle by {ratio:.3e} x tolerance ({detail})"
+                else:
+                    key_last = json.dumps(hist[-1])
+                    if key_last not in alone:
+                        try:
+                            alone[key_last] = run_history(hist[-1:])[0]
+                        except Exception:
+                            alone[key_last] = float("inf")
+                    if not (alone[key_last] <= 1.0):
+                        # the last call is wrong on its own: reported once as call_alone_matches_oracle (by the history that
+                        # consists of that call only), not as a dependence on earlier calls
+                        t.extra["histories_whose_last_call_fails_alone"] += 1
+                        continue
+                    cls = {"part": "history", "relation": "result_independent_of_earlier_calls", "last_call": hist[-1][0]}
+                    msg = f"after the calls {hist[:-1]} the call {hist[-1]} deviates from its oracle by {ratio:.3e} x tolerance ({detail}); alone in a fresh module it agrees ({alone[key_last]:.1e} x tolerance)" + (" [the calls agree on grid, sampling and mask pixel count but use different masks]" if collide else "")
+                t.fail(cls, case, msg)
+            if collide and hist[-1][2] == "ellipse_T" and hist[0][2] == "ellipse" and len(hist) == 2 and hist[0][3:] == hist[1][3:] == [0, 0.2, 0]:
+                t.sample({"history": hist, "deviation_over_tolerance": ratio}, cap=1)
+    finally:
+        _reload_modules()
+    return t
+
+
 # ----------------------------------------------------------------------------- run / replay
 def static_checks(ctx):
     """Naming schemes: the library's symbol/label/preset tables against the own statement of the convention."""
@@ -1252,6 +1519,18 @@ def run(ctx):
     if ctx.quick:  # trimmed: every detector x mask still sees every (C10, C12); phi/rot loops are complete inside
         fitems = [it for i, it in enumerate(fitems) if it[0] == 0 or it[1] == "disc"]
     mC = ctx.pmap(eval_fit, fitems, chunk=1, label="fit")
+    # ---- D: call histories (fresh modules per history, last call judged)
+    fcalls, mcalls = hist_fit_calls(), hist_math_calls()
+    for g, names in HIST_MASKS.items():  # the alphabet must really collide on the pixel count
+        counts = {n: int(hist_mask(g, n).sum()) for n in names}
+        pairs_equal = [(a, b) for a, b in itertools.combinations(names, 2) if counts[a] == counts[b] and not torch.equal(hist_mask(g, a), hist_mask(g, b))]
+        if len(pairs_equal) < (3 if g == "g88" else 1):
+            raise Broken(f"history alphabet does not collide: mask pixel counts {counts} on {g}")
+    depth = 2 if ctx.quick else 3
+    mH = ctx.pmap(eval_history, fcalls, chunk=1, label="fit call histories", depth=depth, family="fit")
+    mH2 = ctx.pmap(eval_history, mcalls, chunk=1, label="surface/basis/gradient/conversion/merge call histories", depth=depth, family="math")
+    if mH.extra["histories_colliding_on_coarse_key"] < 100:
+        raise Broken(f"only {mH.extra['histories_colliding_on_coarse_key']} fit histories collide on (grid, sampling, mask pixel count)")
     pitems = [(rot, {"C10": c10, "C12": c12, "phi12": ph}) for rot in FIT_ROT for c10 in FIT_C10[:2] for c12 in FIT_C12[1:] for ph in FIT_PHI[1:3]]
     pitems += [(0.3, {"C10": -100.0, "C12": 30.0, "phi12": 0.3, "C21": 4000.0, "phi21": 0.5, "C30": 1e5, "C34": 2e5, "phi34": 0.2, "C56": 1e9, "phi56": -0.3})]
     probe_dp = make_dp(None, 0, crop=False)
@@ -1270,6 +1549,11 @@ def run(ctx):
             "angles": "{0, 0.37, -1.1, pi/m}" + (" (pairs: {0.37, pi/m})" if ctx.quick else "") + "; singles also with the angle key absent",
             "wavelengths_A": _lams(),
             "grid": "9 angles in [0, 0.03] rad x 14 azimuths in [-3.1, 3.1]",
+            "call_history": {
+                "fit_calls": f"{len(fcalls)} = masks {HIST_MASKS} x {len(HIST_COEFS)} coefficient sets x (rotation, wavelength) {HIST_ROT_LAM}",
+                "other_calls": f"{len(mcalls)} = {HIST_KINDS} x coefficient sets / label lists x 2 same-shape grids x 2 wavelengths",
+                "histories": "every single call, every ordered pair" + ("" if ctx.quick else ", every triple with the middle call from every 3rd alphabet member") + "; modules re-imported before each history",
+            },
             "label_order": [nm for nm, _ in lists] + ["every ordered pair of distinct labels (600)"] + [f"least-squares fit: {v[0]} ({v[3]})" for v in ORDER_FIT_VARIANTS],
             "aliases": {a: f"{v[0]} x {v[1]:+g}" for a, v in MY_ALIASES.items()},
             "alias_values_d": DVALS,
@@ -1283,6 +1567,10 @@ def run(ctx):
         fit_order_points=int(mFO.n),
         alias_points=int(mB.n),
         fit_points=int(mC.n),
+        call_histories_fit=int(mH.n),
+        call_histories_fit_colliding_on_coarse_key=int(mH.extra["histories_colliding_on_coarse_key"]),
+        call_histories_other_functions=int(mH2.n),
+        call_history_depth=depth,
         private_shift_points=int(mP.n),
         worst_float64_deviation_below=f"1e-{worst_bucket - 1}" if worst_bucket < 99 else "0",
     )
@@ -1312,6 +1600,17 @@ def replay(ctx, case):
             ctx.fail(f["cls"], case, f["msg"])
     elif part == "naming":
         static_checks(ctx)
+    elif part == "history":
+        hist = case["history"]
+        try:
+            ratio, detail = run_history(hist, verbose=True)
+            if len(hist) > 1:
+                run_history(hist[-1:], verbose=True)
+        finally:
+            _reload_modules()
+        if not (ratio <= 1.0):
+            rel_ = "call_alone_matches_oracle" if len(hist) == 1 else "result_independent_of_earlier_calls"
+            ctx.fail({"part": "history", "relation": rel_, "last_call": hist[-1][0]}, case, f"after the calls {hist[:-1]} the call {hist[-1]} deviates from its oracle by {ratio:.3e} x tolerance ({detail})")
     elif part == "fit_order":
         fails, errs, ca = fit_order_case(case, verbose=True)
         for cls, msg in fails:
